@@ -18,8 +18,9 @@ import traceback
 from . import common
 from .plan import Plan
 
-EVIDENCE_DIR = os.path.join(common.VERIF, 'evidence')
-REPLAY_DIR = os.path.join(common.VERIF, 'replays')
+# (the two overrides exist for experiments against seeded changes, so that they do not touch the committed evidence)
+EVIDENCE_DIR = os.environ.get('VERIF_EVIDENCE_DIR') or os.path.join(common.VERIF, 'evidence')
+REPLAY_DIR = os.environ.get('VERIF_REPLAY_DIR') or os.path.join(common.VERIF, 'replays')
 KNOWN = os.path.join(common.VERIF, 'known_findings.json')
 
 
@@ -33,6 +34,8 @@ class Ctx:
         self.flex = flex
         self.flex_san = flex_san
         self._builds = {}
+        self.run_timeout = 30     # seconds given to one simulated run in evaluate()
+        self.pipeline_deadline = time.time() + 3600   # minimisation stops (reports stay gated) after this
 
     def rng(self, *parts):
         return common.rng_for(self.seed, self.prop, *parts)
@@ -41,7 +44,7 @@ class Ctx:
         """build (cached) the scanner of a scenario; returns ScannerBuild"""
         l_text = sc.to_l()
         defines = list(extra_defines)
-        if sc.buf_size:
+        if sc.buf_size and sc.flavor != 'c99':
             defines.append('YY_BUF_SIZE=%d' % sc.buf_size)
         key = hashlib.sha1(('\0'.join([l_text, ' '.join(sc.flex_args()), ' '.join(defines), str(san), str(tsan)])).encode()).hexdigest()[:16]
         b = self._builds.get(key)
@@ -66,7 +69,7 @@ class Ctx:
         objs = []
         first = None
         for i, sc in enumerate(scs):
-            defines = ['YY_BUF_SIZE=%d' % sc.buf_size] if sc.buf_size else []
+            defines = ['YY_BUF_SIZE=%d' % sc.buf_size] if (sc.buf_size and sc.flavor != 'c99') else []
             last = (i == len(scs) - 1)
             r = common.build_scanner(self.flex, self.workdir, 'm%s_%d' % (key, i), sc.to_l(), sc.flex_args(), san=san, tsan=tsan,
                                      defines=defines, extra_objs=objs if last else (), link=last)
@@ -392,7 +395,8 @@ def run_check(mod, tier, seed, only=None):
     reported = set()
     infra = None
     findings = sorted(total.findings, key=lambda f: (f.cls, f.where))
-    max_per_class = cfg.get('max_per_class', 3)
+    max_per_class = cfg.get('max_per_class', 2 if tier == 'quick' else 3)
+    ctx.pipeline_deadline = time.time() + (240 if tier == 'quick' else 900)
     for f in findings:
         if seen_classes[f.cls] >= max_per_class:
             continue
@@ -443,19 +447,29 @@ def recheck(mod, ctx, case, cls):
 def process_finding(mod, ctx, f, seed):
     case = f.case
     # determinism gate: three evaluations, identical log hashes and verdicts
+    ctx.run_timeout = 20 if f.cls == 'hang' else 30
     r1 = recheck(mod, ctx, case, f.cls)
     r2 = recheck(mod, ctx, case, f.cls)
     if f.cls == 'hang' and not r1[0] and not r2[0]:
         # the run finished when given more time: the machine was busy
-        return {'status': 'dropped', 'msg': 'time-out did not reproduce with a 120 s cap'}
+        return {'status': 'dropped', 'msg': 'time-out did not reproduce when the plan was run alone with a 20 s cap'}
     if not r1[0] or not r2[0] or r1[2] != r2[2]:
         return {'status': 'infra', 'msg': 'violation %s (%s) did not reproduce deterministically: %s / %s' % (f.cls, f.where, r1, r2)}
     # shrink
     budget = getattr(mod, 'SHRINK_BUDGET', 250)
-    if getattr(mod, 'SHRINKABLE', True) and not case.meta.get('probe'):
-        small, used = shrink_case(case, lambda c: recheck(mod, ctx, c, f.cls)[0], budget)
+    if getattr(mod, 'SHRINKABLE', True) and not case.meta.get('probe') and f.cls != 'hang' and time.time() < ctx.pipeline_deadline:
+        # candidates get a short time-out and the whole minimisation a wall-clock cap
+        ctx.run_timeout = 8
+        deadline = min(ctx.pipeline_deadline, time.time() + getattr(mod, 'SHRINK_SECONDS', 45))
+
+        def still(c):
+            if time.time() > deadline:
+                return False
+            return recheck(mod, ctx, c, f.cls)[0]
+        small, used = shrink_case(case, still, budget)
     else:
         small, used = case, 0
+    ctx.run_timeout = 20 if f.cls == 'hang' else 30
     ok, detail, h = recheck(mod, ctx, small, f.cls)
     if not ok:
         small = case
